@@ -6,6 +6,7 @@
 //! against the TLA+ specification.
 
 mod cachecmd;
+mod hostscmd;
 mod j;
 mod namescmd;
 mod wirecmd;
@@ -59,6 +60,7 @@ fn main() {
         "wire-decode" => wirecmd::wire_decode(&args[2], &args[3]),
         "wire-roundtrip" => wirecmd::wire_roundtrip(&args[2], &args[3]),
         "wire-encode" => wirecmd::wire_encode(&args[2], &args[3]),
+        "hosts" => hostscmd::hosts(&args[2], &args[3]),
         "names" => namescmd::names(&args[2], &args[3]),
         "zone-resolve" => zonecmd::zone_resolve(&args[2], &args[3]),
         other => {
